@@ -11,6 +11,7 @@ is the drain obligation of C05 (every row pulled through res_writer is written a
 from contracts import findings_natives as KF
 from contracts.common import Item
 from contracts import streams as S
+from contracts import C07 as K07
 
 TRUSTED = ['T1 pyvc model of Python (DESIGN 3)', 'T11 POSIX: rename is atomic; open(name, "w") creates only that name; '
            'os.path.exists reads the directory', 'T8 json.dumps text has no raw newline (ensure_ascii, no indent)', 'T16 z3 / cvc5']
@@ -158,5 +159,7 @@ ITEMS = [
     Item('stream.faulty-io', S.sym_stream_faulty, [], 'dataflows/processors/stream.py::stream.write'),
     Item('checkpoint', S.sym_checkpoint, [], 'dataflows/processors/checkpoint.py::checkpoint._preprocess_chain'),
     Item('unstream', S.sym_unstream, [], 'dataflows/processors/unstream.py::unstream'),
+    # a checkpoint that is picked up is read completely and in order: the reader's own contract (shared with C07)
+    Item('unstream.res_reader', K07.sym_res_reader, [], 'dataflows/processors/unstream.py::unstream.res_reader'),
     Item('recorded-findings', None, [('bounded', KF.nat_findings_c08)], 'dataflows/processors/stream.py::stream.func'),
 ]
